@@ -3,6 +3,7 @@ from __future__ import annotations
 
 import functools
 import itertools
+import logging
 import warnings
 from fractions import Fraction
 
@@ -11,6 +12,8 @@ import numpy as np
 import torch
 
 from core import Ctx, Violation, err_name, ints
+
+logging.disable(logging.CRITICAL)   # the repository logs warnings (and exceptions, on construction) through `logging`
 
 PROP = "C08"
 MANIFEST = {
@@ -152,8 +155,10 @@ def run_real(tr, sample):
 
 # --------------------------------------------------------------------------------------------------
 # exact (dyadic) data and canonical form
-def exact_kspace(rng, nc, ns, h, w, border=0, zero_coil=False) -> np.ndarray:
-    """one non-zero coil per pixel, value ±2^k on the real or the imaginary axis; optional zero border / coil"""
+def exact_kspace(rng, nc, ns, h, w, border=0, zero_coil=False, pyth=False) -> np.ndarray:
+    """one non-zero coil per pixel, value ±2^k on the real or the imaginary axis; optional zero border / coil.
+    `pyth`: additionally 3-4-5 pixels (two coils 3·2^j and 4·2^j, or one coil (3+4i)·2^j) — moduli and root sums of
+    squares stay exact but differ from sums of moduli; only for stages that do not divide."""
     shape = (nc, ns, h, w) if ns else (nc, h, w)
     k = np.zeros(shape, dtype=np.complex64)
     live = [c for c in range(nc) if not (zero_coil and c == nc - 1 and nc > 1)]
@@ -165,6 +170,15 @@ def exact_kspace(rng, nc, ns, h, w, border=0, zero_coil=False) -> np.ndarray:
             continue
         c = rng.choice(live)
         v = rng.choice([1, 2, 4, 8]) * rng.choice([1, -1])
+        if pyth and rng.random() < 0.5:
+            j = rng.choice([1, 2])
+            if len(live) >= 2 and rng.random() < 0.6:
+                c1, c2 = rng.sample(live, 2)
+                k[(c1,) + idx] = 3 * j * rng.choice([1, -1, 1j])
+                k[(c2,) + idx] = 4 * j * rng.choice([1, -1, -1j])
+            else:
+                k[(c,) + idx] = (3 + 4j) * j * rng.choice([1, -1])
+            continue
         k[(c,) + idx] = v if rng.random() < 0.5 else 1j * v
     if not np.any(k):
         k[(0,) + tuple(n // 2 for n in shape[1:])] = 2
@@ -220,7 +234,7 @@ def _err(e: BaseException) -> str:
 def _pipeline_case(ctx, rng, f: dict, nc, ns, h, w, crop_shape, eps_pow, pct, pad_to, border, zero_coil, bucket):
     """whole composed pipeline with identity operators on dyadic data; masks are taken from the real run"""
     k = exact_kspace(rng, nc, ns, h, w, border=border, zero_coil=zero_coil)
-    rec = _RecordingMask(_mask_func())
+    rec = _RecordingMask(_mask_func(2, 0.5))
     eps = 2.0 ** eps_pow
     tr = build_real(f, rec, _ident, _ident, crop_shape=crop_shape, eps=eps, percentile=pct, pad_to=pad_to)
     smp = raw_sample(k, crop_shape=crop_shape if f["crop"] == 2 else None)
@@ -229,6 +243,8 @@ def _pipeline_case(ctx, rng, f: dict, nc, ns, h, w, crop_shape, eps_pow, pct, pa
         ans = canon_out(out, bool(ns), f["recon"])
     except Exception as e:  # noqa: BLE001
         out, ans = None, _err(e)
+        if "kthvalue" in str(e):
+            return None     # precondition: the masked k-space is identically zero (see ASSUMPTIONS)
     hh, ww = (crop_shape if f["crop"] else (h, w))
     npix = hh * ww
     samp = next((m for acs, _, _, m in rec.calls if not acs), None)
@@ -265,6 +281,14 @@ def _stage_cases(ctx, rng):
 
     n = ctx.budget(14, 120)
     for _ in range(n):
+        yield from _stage_set(rng)
+
+
+def _stage_set(rng):
+    import direct.data.mri_transforms as M
+    from direct.types import KspaceKey, TransformKey
+
+    if True:
         nc = rng.choice([1, 2, 3, 4])
         ns = rng.choice([0, 0, 2, 3])
         h, w = rng.choice([2, 3, 4, 5, 6, 7]), rng.choice([2, 3, 4, 5, 6])
@@ -273,6 +297,13 @@ def _stage_cases(ctx, rng):
                          zero_coil=rng.random() < 0.3)
         kt = torch.from_numpy(np.stack([k.real, k.imag], -1)).float()
         kdesc = (nc, max(ns, 1), 1, cplx_ints(k))
+        kp = exact_kspace(rng, nc, ns, h, w, zero_coil=rng.random() < 0.3, pyth=True)
+        kpt = torch.from_numpy(np.stack([kp.real, kp.imag], -1)).float()
+        kpdesc = (nc, max(ns, 1), 1, cplx_ints(kp))
+
+        def freshp():
+            return {"kspace": kpt.clone(), "filename": "f", "slice_no": 0}
+
         mshape = ((1, 1, h, w, 1) if three_d else (1, h, w, 1))
         g = torch.Generator().manual_seed(rng.randrange(2 ** 31))
         mask = torch.rand(mshape, generator=g) < 0.6
@@ -302,6 +333,18 @@ def _stage_cases(ctx, rng):
         yield case(0, 0, 0, {"kspace": kdesc},
                    lambda s, e=eps_pow: M.ComputeZeroPadding(KspaceKey.KSPACE, "padding", 2.0 ** e)(fresh()),
                    "stage/ComputeZeroPadding" + ("3d" if three_d else ""), aux0)
+        yield case(0, 0, 0, {"kspace": kpdesc},
+                   lambda s, e=eps_pow: M.ComputeZeroPadding(KspaceKey.KSPACE, "padding", 2.0 ** e)(freshp()),
+                   "stage/ComputeZeroPadding/pythagorean", aux0)
+        yield case(3, 1, 0, {"kspace": kpdesc},
+                   lambda s: M.ComputeScalingFactor(normalize_key="kspace", percentile=None,
+                                                    scaling_factor_key=TransformKey.SCALING_FACTOR)(freshp()),
+                   "stage/ComputeScalingFactor/max/pythagorean", aux0)
+        for r in (1, 2, 3):
+            yield case(5, r, 0, {"kspace": kpdesc},
+                       lambda s, r=r: M.ComputeImage(kspace_key=KspaceKey.KSPACE, target_key=TransformKey.TARGET,
+                                                     backward_operator=_ident, type_reconstruction=RECON[r])(freshp()),
+                       "stage/ComputeImage/" + RECON[r] + "/pythagorean", aux0)
         pad = M.ComputeZeroPadding(KspaceKey.KSPACE, "padding", 2.0 ** eps_pow)(fresh())["padding"]
         yield case(1, 0, 0, {"kspace": kdesc, "padding": mdesc(pad)},
                    lambda s, p=pad: M.ApplyZeroPadding()({**fresh(), "padding": p}), "stage/ApplyZeroPadding", aux0)
@@ -420,7 +463,7 @@ def random_flags(rng, valid_only=False) -> dict:
     f["delete_acs"] = rng.choice([0, 1])
     f["delete_kspace"] = rng.choice([0, 1])
     f["recon"] = rng.randrange(6)
-    f["scaling_key"] = rng.choice([0, 0, 1, 1, 2]) if valid_only else rng.choice([0, 0, 1, 1, 2, 3, 4])
+    f["scaling_key"] = rng.choice([0, 1]) if valid_only else rng.choice([0, 0, 1, 1, 3, 4])
     f["percentile"] = rng.choice([0, 1])
     f["ssl"] = rng.choice([0, 0, 1])
     f["split"] = rng.randrange(3)
@@ -433,8 +476,6 @@ def random_flags(rng, valid_only=False) -> dict:
     if valid_only:
         if f["recon"] >= 4:
             f["estimate_smaps"] = 1
-        if f["scaling_key"] == 2:
-            f["body_coil"] = 1
         if f["keep_acs"]:
             f["estimate_smaps"] = 1
     return f
@@ -469,14 +510,17 @@ def correspondence(ctx: Ctx):
         if f["pad_coils"] and f["estimate_smaps"] and f["smap_type"] == 2:
             f["smap_type"] = 1
         bucket = "pipeline/" + ("ssl" if f["ssl"] else "sup") + ("/3d" if ns else "/2d") + ("/crop" if f["crop"] else "")
-        yield _pipeline_case(ctx, rng, f, nc, ns, h, w, crop_shape, rng.choice([-13, -13, -1, -2]),
-                             rng.choice([0.99, 0.9, 0.5]), pad_to, rng.choice([0, 0, 1]), rng.random() < 0.25, bucket)
+        c = _pipeline_case(ctx, rng, f, nc, ns, h, w, crop_shape, rng.choice([-13, -13, -1, -2]),
+                           rng.choice([0.99, 0.9, 0.5]), pad_to, rng.choice([0, 0, 1]), rng.random() < 0.25, bucket)
+        if c is None:
+            ctx.hist["pipeline/skipped-all-zero-masked-kspace"] = ctx.hist.get("pipeline/skipped-all-zero-masked-kspace", 0) + 1
+        else:
+            yield c
     # (4) malformed: the pipeline must reject, and so must the model
     for f in ({**default_flags(), "mask_func": 0, "estimate_smaps": 0},
               {**default_flags(), "recon": 4, "estimate_smaps": 0},
               {**default_flags(), "recon": 5, "estimate_smaps": 0, "ssl": 1},
               {**default_flags(), "ssl": 1, "keep_acs": 1, "estimate_smaps": 0},
-              {**default_flags(), "scaling_key": 2, "body_coil": 0},
               {**default_flags(), "scaling_key": 3}):
         yield _pipeline_case(ctx, rng, f, 2, 0, 6, 5, None, -13, 0.9, None, 0, False, "pipeline/malformed")
 
@@ -492,8 +536,10 @@ def _gauss_sample(seed, nc, ns, h, w, border, zero_coil):
     shape = (nc, ns, h, w) if ns else (nc, h, w)
     k = (g.randn(*shape) + 1j * g.randn(*shape)).astype(np.complex64)
     if border:
-        m = np.zeros(shape[-2:], dtype=bool)
-        m[border:h - border, border:w - border] = True
+        m = np.zeros(shape[-2:], dtype=np.float32)
+        m[:] = 0.0 if border == 1 else 1e-6      # an exactly zero border, or one far below the relative threshold
+        b = 1
+        m[b:h - b, b:w - b] = 1.0
         k = k * m
     if zero_coil and nc > 1:
         k[nc - 1] = 0
@@ -540,7 +586,7 @@ def oracle(ctx: Ctx, deep: bool = False):
             f["crop"] = 1
         h, w = rng.choice([6, 7, 8, 9, 10, 11, 12]), rng.choice([6, 7, 8, 9, 10, 12])
         crop_shape = (rng.randint(3, h - 1), rng.randint(3, w - 1))
-        border = rng.choice([0, 0, 1])
+        border = rng.choice([0, 1, 2])
         zero_coil = rng.random() < 0.3
         seed = rng.randrange(2 ** 31)
         centered = rng.random() < 0.7
@@ -600,7 +646,7 @@ def check_config(cfg, k: np.ndarray):
         if not torch.isfinite(base[kk].float()).all():
             yield Violation("nonfinite-" + kk, f"output `{kk}` contains NaN/Inf", {**rep, "key": kk})
     # (i) scaling by 2^k bit-exact, arbitrary positive reals to 1e-4
-    for kpow in (-3, 1, 3):
+    for kpow in (-14, -3, 1, 3, 12):
         sc = 2.0 ** kpow
         try:
             o = run(sc)
@@ -653,7 +699,8 @@ def check_config(cfg, k: np.ndarray):
         if not torch.allclose(base["target"], full["target"], rtol=0, atol=0):
             yield Violation("delete-kspace-changes-output", "target depends on delete_kspace", rep)
     else:
-        mk = full["input_kspace"] + full["kspace"]     # disjoint split masks: the sum is the masked normalised k-space
+        # the masked normalised k-space, reassembled from the two splits (they may share the ACS region)
+        mk = torch.where(full["input_sampling_mask"], full["input_kspace"], full["kspace"])
         for side in ("input", "target"):
             got = full["input_kspace" if side == "input" else "kspace"]
             exp, _ = T.apply_mask(mk, full[side + "_sampling_mask"])
@@ -682,7 +729,13 @@ def check_config(cfg, k: np.ndarray):
         exp_shapes["target"] = {"ifft": (nc_out,) + lead + sp + (2,), "complex": lead + sp + (2,), "sense": lead + sp + (2,)}.get(
             r, lead + sp)
         for kk, es in exp_shapes.items():
-            if kk in base and tuple(base[kk].shape) != tuple(es):
+            if kk in base and kk.endswith("sampling_mask"):
+                # masks: (1, [1,] h, w, 1) — the number of leading singleton axes is the splitter's business
+                got = tuple(base[kk].shape)
+                ok = got[-3:] == sp + (1,) and all(n == 1 for n in got[:-3])
+            else:
+                ok = kk not in base or tuple(base[kk].shape) == tuple(es)
+            if not ok:
                 yield Violation("crop-shape-" + kk, f"`{kk}` has shape {tuple(base[kk].shape)}, requested crop gives {es}",
                                 {**rep, "key": kk, "expected": list(es), "observed": list(base[kk].shape)})
 
